@@ -18,6 +18,7 @@ precision, 1e-4 in single).
 import itertools
 import json
 import re
+import time
 import numpy as np
 from vlib import core, coqlit as L
 
@@ -165,7 +166,7 @@ def run_case(sp, rng, c, want_coq=True):
             bad.append(("linop-apply", "fwt/iwt outputs", "linop outputs differ", max(relerr(ya, y), relerr(za, z))))
     if str(y.dtype) != c["dtype"] or str(z.dtype) != c["dtype"]:
         bad.append(("dtype", c["dtype"], [str(y.dtype), str(z.dtype)], 1.0))
-    if want_coq:
+    if want_coq and (x.size + 2 * dec["arg"].size + 4 * y.size + 2 * z.size + rc["out"].size) <= 1600:
         dc = DCODE[c["dtype"]]
         exprs.append("chk_fwt %s %s %s %s %s %s %s %s %s %s %s" % (
             L.zlist(shape), L.zzlist(bits(x)), L.zlist(dec["arg"].shape), L.zzlist(bits(dec["arg"])),
@@ -193,7 +194,9 @@ def tolist(a):
 
 def run(ctx):
     ctx.source_hash("sigpy/wavelet.py", "sigpy/util.py", "sigpy/linop.py")
+    t0 = time.time()
     proof_ok = ctx.prove("Prop_C10.v")
+    t1 = time.time()
     sp = core.import_sigpy()
     rng = ctx.rng
     names, flagged = orthogonal_wavelets()
@@ -201,8 +204,8 @@ def run(ctx):
     ctx.notes.append("PyWavelets flags %d discrete wavelets as orthogonal; not covered by the property: %s"
                      % (len(flagged), sorted(set(flagged) - set(names))))
     maxlen = ctx.n(12, 24)
-    per_wave = ctx.n(9, 60)
-    ncoq = ctx.n(260, 2500)
+    per_wave = ctx.n(6, 60)
+    ncoq = ctx.n(220, 2500)
     cases = list(corpus_cases())
     for w in names:
         for _ in range(per_wave):
@@ -230,6 +233,7 @@ def run(ctx):
             oracle_bad.append((d, b))
         for k, e in enumerate(d["exprs"]):
             coq_cases.append(dict(expr=e, d=d, which="fwt" if k == 0 else "iwt"))
+    t2 = time.time()
     failing, corr_ok = [], True
     try:
         if not ctx.make(["run/RunC10.vo"]):
@@ -238,6 +242,7 @@ def run(ctx):
     except RuntimeError as e:
         corr_ok = False
         ctx.notes.append("correspondence could not run: %s" % str(e)[:500])
+    ctx.notes.append("timing: prove %.0fs, implementation+oracle %.0fs, coq correspondence %.0fs" % (t1 - t0, t2 - t1, time.time() - t2))
     ctx.obligation("corr:wrapper model==impl exactly (pad, crop, packing, shapes, dtype; %d checks)" % len(coq_cases),
                    corr_ok and not failing)
     ctx.obligation("oracle:iwt(fwt x)==x, norm, adjoint, advertised shape, mode (%d configurations, %d wavelets)"
